@@ -50,7 +50,64 @@ def run_static(prop, seed, tier, replay):
             "assumptions": COMMON_ASSUMPTIONS}
 
 
+DYN_PROPS = {"C01", "C03", "C05", "C06"}
+
+
+def run_dynamic(prop, seed, tier, replay):
+    import dyn_pipeline as dp
+    if replay:
+        rp = json.load(open(replay))
+        c = rp["case"]
+        res = dp.run(seed, tier, extra_cases=[{"name": "replay", "code": c["code"], "config": c["config"]}])
+    else:
+        res = dp.run(seed, tier)
+    vs = res["verdicts"].get(prop, [])
+    samples = []
+    for rid, v, d in vs:
+        if v in ("ok", "dev") and len(samples) < 3:
+            c = res["cases"][rid]
+            samples.append({"input": c["code"][:400], "scenario": c["scenario"], "mode": c["mode"], "verdict": v})
+    st = res["stats"]
+    cov = {"states": st["tlc_distinct"], "transitions": st["tlc_states"], "traces_validated_against_impl": st["records"],
+           "evaluations": st["records"], "samples": samples, "programs_executed": st["jobs"],
+           "rule": "programs (operation x context grid + seeded random) are rewritten by the real rewriter; input and output run in "
+                   "V8 inside the effect-logging membrane under the default scenario and single-fault / re-entry / reassignment "
+                   "scenarios (each external interaction answered nullish / throwing / a string / re-entering); every pair of runs "
+                   "is one trace record judged by TraceDyn.tla (ObsEquiv); non-trivial = the input run has at least one effect; "
+                   "distinct = distinct (program, configuration, scenario, mode)",
+           "exhaustive": False}
+    return {"verdicts": vs, "cases": res["cases"], "level": "model_checking", "coverage": cov,
+            "assumptions": COMMON_ASSUMPTIONS + [
+                "V8 (Node 20) is the definition of JavaScript behaviour; harness/js/membrane.js is the observer",
+                "A4 coercion callbacks do not reassign program variables; A5 call/apply/bind of functions are the intrinsics",
+                "A6 with / direct eval / arguments aliasing are outside the generated fragment"]}
+
+
+def merge(a, b, pa, pb):
+    """both halves of a property must hold: verdict lists are concatenated (record ids prefixed)"""
+    cases = {pa + k: v for k, v in a["cases"].items()}
+    cases.update({pb + k: v for k, v in b["cases"].items()})
+    vs = [(pa + rid, v, d) for rid, v, d in a["verdicts"]] + [(pb + rid, v, d) for rid, v, d in b["verdicts"]]
+    cov = dict(a["coverage"])
+    for k in ("states", "transitions", "traces_validated_against_impl", "evaluations"):
+        cov[k] = a["coverage"].get(k, 0) + b["coverage"].get(k, 0)
+    cov["samples"] = a["coverage"]["samples"][:2] + b["coverage"]["samples"][:2]
+    cov["rule"] = "STATIC HALF: " + a["coverage"]["rule"] + " || DYNAMIC HALF: " + b["coverage"]["rule"]
+    return {"verdicts": vs, "cases": cases, "level": a["level"], "coverage": cov,
+            "assumptions": sorted(set(a["assumptions"]) | set(b["assumptions"]))}
+
+
 def run_property(prop, seed, tier, replay=None):
-    if prop in STATIC_PROPS:
+    if replay:
+        rp = json.load(open(replay))
+        half = "dyn" if str(rp.get("rid", "")).startswith("dyn:") else "static"
+        if prop in DYN_PROPS and (half == "dyn" or prop not in STATIC_PROPS):
+            return run_dynamic(prop, seed, tier, replay)
         return run_static(prop, seed, tier, replay)
+    if prop in STATIC_PROPS and prop in DYN_PROPS:
+        return merge(run_static(prop, seed, tier, None), run_dynamic(prop, seed, tier, None), "static:", "dyn:")
+    if prop in DYN_PROPS:
+        return run_dynamic(prop, seed, tier, None)
+    if prop in STATIC_PROPS:
+        return run_static(prop, seed, tier, None)
     raise vlib.ToolError("no pipeline registered for property %s" % prop)
